@@ -75,10 +75,7 @@ Definition nav_pages_statement : Prop :=
   forall l c, In l nav_links -> wf_counts c = true -> nav_link_ok l c = true.
 
 (* one source file, incl_src (the default): the front page links lists/files.html, which is not written *)
-Definition witness_counts : counts :=
-  {| n_absinterfaces := 0; n_blockdata := 0; n_extra_files := 0; n_files := 1; n_modules := 1;
-     n_namelists := 0; n_procedures := 0; n_programs := 0; n_submodules := 0; n_types := 0;
-     f_incl_src := true; v_max_frontpage_items := 10 |}.
+Definition witness_counts : counts := sample_one_file.
 
 Theorem nav_pages_refuted : ~ nav_pages_statement.
 Proof.
@@ -91,11 +88,18 @@ Qed.
 Example nav_partial_nonvacuous :
   exists l, In l nav_links /\ wf_counts witness_counts = true /\
             region_index_files l witness_counts = false /\ nl_cond l witness_counts = true.
-Proof. exists (nth 2 nav_links (nth 0 nav_links (mk_link [] [] (TList []) (fun _ => false)))).
-       vm_compute. intuition. Qed.
+Proof.
+  destruct (find (fun l => negb (is_index_files l) && nl_cond l witness_counts) nav_links) as [l|] eqn:E;
+    [|vm_compute in E; discriminate E].
+  exists l. apply find_some in E as [HIn E]. apply andb_true_iff in E as [E1 E2].
+  repeat split; auto. unfold region_index_files. apply negb_true_iff in E1. now rewrite E1.
+Qed.
 
 Example nav_region_nonvacuous :
   exists l, In l nav_links /\ wf_counts witness_counts = true /\
             region_index_files l witness_counts = true /\ nl_cond l witness_counts = true.
-Proof. exists (nth 11 nav_links (mk_link [] [] (TList []) (fun _ => false))).
-       vm_compute. intuition. Qed.
+Proof.
+  destruct (find (fun l => region_index_files l witness_counts && nl_cond l witness_counts) nav_links)
+    as [l|] eqn:E; [|vm_compute in E; discriminate E].
+  exists l. apply find_some in E as [HIn E]. apply andb_true_iff in E as [E1 E2]. auto.
+Qed.
